@@ -317,6 +317,29 @@ func runX10(p *an.Prog, r *an.Result) {
 				if _, isFV := o.(*ssa.FreeVar); isFV {
 					fixed = true
 				}
+				// or a field of the receiver, where the builders keep their operands in a struct and
+				// return a method value
+				if fn.Signature.Recv() != nil && len(fn.Params) > 0 {
+					switch x := o.(type) {
+					case *ssa.Field:
+						if an.Deref(x.X) == ssa.Value(fn.Params[0]) || x.X == ssa.Value(fn.Params[0]) {
+							fixed = true
+						}
+					case *ssa.UnOp:
+						if fa, ok := x.X.(*ssa.FieldAddr); ok {
+							if fa.X == ssa.Value(fn.Params[0]) {
+								fixed = true
+							}
+							if al, ok := fa.X.(*ssa.Alloc); ok {
+								for _, sv := range an.Stores(al) {
+									if sv == ssa.Value(fn.Params[0]) {
+										fixed = true
+									}
+								}
+							}
+						}
+					}
+				}
 			}
 			if fixed {
 				r.OK(name, "a.b: PropertyValue(name fixed at parse time)", prop[0].Pos(), "")
@@ -758,7 +781,16 @@ func runF9(p *an.Prog, r *an.Result) {
 				return
 			}
 			r.Counts["float to integer conversions"]++
-			construct := fmt.Sprintf("%s(%s)", an.TypeName(cv.Type()), describe(p, cv.X))
+			// (a parameter is named by position and type, not by its name: a rename must not orphan a table entry)
+			operand := describe(p, cv.X)
+			if par, ok := cv.X.(*ssa.Parameter); ok {
+				for i, pp := range fn.Params {
+					if pp == par {
+						operand = fmt.Sprintf("parameter %d %s", i, an.TypeName(par.Type()))
+					}
+				}
+			}
+			construct := fmt.Sprintf("%s(%s)", an.TypeName(cv.Type()), operand)
 			// (i) after a rounding function
 			rounded := true
 			n := 0
@@ -1609,7 +1641,7 @@ func runX17(p *an.Prog, r *an.Result) {
 		}
 		an.EachInstr(fn, func(in ssa.Instruction) {
 			if c, ok := in.(*ssa.Call); ok {
-				if callee := c.Call.StaticCallee(); callee != nil && callee.Name() == "newLexer" {
+				if callee := c.Call.StaticCallee(); callee != nil && isLexerStart(p, callee) {
 					sites = append(sites, c)
 				}
 			}
@@ -1708,4 +1740,30 @@ func runX17(p *an.Prog, r *an.Result) {
 		}
 	}
 	r.Floor("lexer starts", 1)
+}
+
+// isLexerStart: a function of package expressions that takes the text as []byte (or string) and returns
+// the lexer: a pointer to a type with a Lex method (what the generated parser calls).
+func isLexerStart(p *an.Prog, f *ssa.Function) bool {
+	if f.Pkg == nil || an.RelPkg(f.Pkg.Pkg.Path()) != "expressions" || f.Signature.Results().Len() != 1 || f.Signature.Params().Len() == 0 {
+		return false
+	}
+	rt := f.Signature.Results().At(0).Type()
+	ms := p.SSA.MethodSets.MethodSet(rt)
+	hasLex := false
+	for i := 0; i < ms.Len(); i++ {
+		if ms.At(i).Obj().Name() == "Lex" {
+			hasLex = true
+		}
+	}
+	if !hasLex {
+		return false
+	}
+	pt := f.Signature.Params().At(0).Type()
+	if sl, ok := pt.Underlying().(*types.Slice); ok {
+		b, ok := sl.Elem().Underlying().(*types.Basic)
+		return ok && b.Kind() == types.Uint8
+	}
+	b, ok := pt.Underlying().(*types.Basic)
+	return ok && b.Kind() == types.String
 }
